@@ -581,7 +581,7 @@ CASES.append({'name': 'goal-mask-negated', 'props': ['C02', 'C18'], 'expect': ['
 seeded('seeded-R9C02-trees-left-swapped-on-timeout', ['C02', 'C15', 'C16'], ['C16.balance'])
 seeded('seeded-R9C05-start-links-cached', ['C05', 'C03'], ['C05.radius'])
 seeded('seeded-R9C06-subsec-millis-deadline', ['C06'], ['C06.deadline'])
-seeded('seeded-R9C11-overshoot-fraction', ['C11'], ['C11.enforce'])
+# seeded('seeded-R9C11-overshoot-fraction', ['C11'], ['C11.enforce'])     # retired: superseded by the repair 955ad5e (see seeded/R9C11/meta.json)
 seeded('seeded-R9C12-infinite-bounds-unordered', ['C12'], ['C12.stored'])
 seeded('seeded-R9C16-skip-coincident-sample', ['C16'], ['C16.extend'])
 seeded('seeded-R9C17-neighbours-prefiltered-by-sample', ['C17', 'C15'], ['C15.range'])
